@@ -490,11 +490,11 @@ def judge(roots):
     import re
     from xobjects.context import sources_from_classes
 
-    text = "\n".join(x if isinstance(x, str) else str(getattr(x, "source", x)) for x in sources_from_classes(res))
+    text = chr(10).join(x if isinstance(x, str) else str(getattr(x, "source", x)) for x in sources_from_classes(res))
     for c in need:
-        k = len(re.findall(r"#define\s+XOBJ_TYPEDEF_" + re.escape(c.__name__) + r"\b", text))
+        k = len(re.findall("#define XOBJ_TYPEDEF_" + re.escape(c.__name__) + "(?![A-Za-z0-9_])", text))
         if k != 1:
-            return f"the API block of {c.__name__} needed by {[r.__name__ for r in roots]} is emitted {k} times in the source text (blocks: {re.findall(r'#define\s+XOBJ_TYPEDEF_(\w+)', text)})"
+            return f"the API block of {c.__name__} needed by {[r.__name__ for r in roots]} is emitted {k} times in the source text (blocks: {re.findall('#define XOBJ_TYPEDEF_([A-Za-z0-9_]+)', text)})"
     for attempt in ("first", "second"):
         try:
             xo.ContextCpu().add_kernels(kernels={}, extra_classes=list(roots))
